@@ -188,6 +188,7 @@ func c02(c *Ctx) {
 		}
 		units = append(units, u)
 	}
+	seqUnit := c02seqAdd(c, l)
 	if un := l.CompileAll(false); un != "" {
 		c.R.Harness("unattributed build output: " + firstLines(un, 10))
 		return
@@ -309,6 +310,7 @@ func c02(c *Ctx) {
 			ts.Stop()
 		}
 	}
+	seqUnit.run(c, l, ch)
 	nr, reps := lab.RaceReports(c.Scratch + "/race-c02")
 	c.R.Count("race_reports", nr)
 	for _, r := range reps {
